@@ -3,6 +3,7 @@
 -/
 import Petl.Select
 import PetlProofs.Props.C04
+import PetlProofs.RecastMelt
 
 namespace Petl.C13
 open Petl
@@ -131,6 +132,40 @@ theorem tail_is_suffix {α : Type} (n : Nat) (l : List α) :
   simp [tailRows, List.length_drop]; omega
 
 /-! non-vacuity: a reference value of another type, a None cell and a missing cell -/
+/-- a compound field is read cell by cell: an absent cell as `missing`, a present one as it is
+    (not the whole key as `missing`, which is what petl did before commit 28eb368) -/
+theorem compound_field_cells (i j : Nat) (missing : Val) (r : Row) :
+    fieldValue [i, j] missing r = .seq false [cellOr missing r i, cellOr missing r j] := rfl
+
+theorem cellOr_absent (missing : Val) (r : Row) (i : Nat) (h : r.length ≤ i) : cellOr missing r i = missing := by
+  simp [cellOr, h]
+
+theorem cellOr_present (missing : Val) (r : Row) (i : Nat) (h : i < r.length) : cellOr missing r i = getCell r i := by
+  have : ¬ r.length ≤ i := by omega
+  simp [cellOr, this]
+
+/-- the tables of `facet` cover the input: every row, ragged or not, is in the selection for its own key … -/
+theorem facet_covers (idx : List Nat) (missing : Val) (rows : List Row) (r : Row) (h : r ∈ rows) :
+    r ∈ fieldSelect idx missing (fun v => Val.pyEq v (fieldValue idx missing r)) false rows := by
+  unfold fieldSelect
+  simp only [List.mem_filter]
+  refine ⟨h, ?_⟩
+  simp [Petl.RecastMelt.pyEq_refl]
+
+/-- … and only in selections for keys equal to its own -/
+theorem facet_only_own_key (idx : List Nat) (missing k : Val) (rows : List Row) (r : Row)
+    (h : r ∈ fieldSelect idx missing (fun v => Val.pyEq v k) false rows) :
+    r ∈ rows ∧ Val.pyEq (fieldValue idx missing r) k = true := by
+  unfold fieldSelect at h
+  simp only [List.mem_filter] at h
+  obtain ⟨h1, h2⟩ := h
+  refine ⟨h1, ?_⟩
+  cases hk : Val.pyEq (fieldValue idx missing r) k <;> simp [hk] at h2 ⊢
+
+/-- the ragged row of the repaired defect: key fields 0 and 1, the row `(1,)`: its key is `(1, missing)` -/
+example : fieldValue [0, 1] .none [.num .int (.fin 1)] = .seq false [.num .int (.fin 1), .none] := by
+  simp [fieldValue, cellOr, getCell]
+
 example : (Pred.lt (.str [97])).eval (.num .int (.fin 5)) = true ∧ (Pred.lt (.num .int (.fin 5))).eval .none = true ∧
     Val.pyEq (fieldValue [1] (.str [63]) [.none]) (.str [63]) = true := by decide
 
